@@ -84,7 +84,13 @@ static bool unhex(std::string const& t, std::string& out)
 struct Rng
 {
   uint64_t s;
-  explicit Rng(uint64_t seed) : s(seed * 0x9E3779B97F4A7C15ull + 0x1234567ull) {}
+  // the state is a Weyl sequence: scramble the seed first so that nearby seeds do not give shifted copies of one stream
+  explicit Rng(uint64_t seed) : s(seed + 0x1234567ull)
+  {
+    uint64_t const a = next();
+    uint64_t const b = next();
+    s = a ^ (b << 1) ^ (seed * 0xD1342543DE82EF95ull);
+  }
   uint64_t next()
   {
     uint64_t z = (s += 0x9E3779B97F4A7C15ull);
